@@ -202,19 +202,21 @@ func (prop) Generate(rng *core.Rand, tier string, emit0 func(string)) {
 		}
 	}
 	emit("ca m:-;l:-;m:-;s:-;m:-;m:2cb;m:-;l:1cb;m:-")
-	// the known defect (known_findings.jsonl, Witness.recovery_with_runtime_renewal_full_fails):
-	// the certificate write of a renewal reports an error after taking effect, the process keeps
-	// running unsynced, its next pass is interrupted between the two writes
-	emit("ca s:-;l:8fa;m:3ca;l:-")
+	// memory and storage of a running process disagree (the certificate write of a renewal reports
+	// an error after taking effect; only logged), then every crash point and fault of its next pass
+	// (Witness.recovery_with_runtime_renewal_old_code_fails is the k=3 case)
+	for k := 1; k <= 5; k++ {
+		for _, m := range modes {
+			emit(fmt.Sprintf("ca s:-;l:8fa;m:%d%s;l:-;l:-", k, m))
+			emit(fmt.Sprintf("ca s:-;m:4fa;m:%d%s;l:-", k, m))
+		}
+	}
 	for c := 0; c < nCA/10; c++ {
 		var evs []string
 		for i, n := 0, 2+rca.Intn(7); i < n; i++ {
 			f := "-"
 			if rca.Chance(1, 2) {
 				f = caFault(rca, 9)
-				if strings.HasSuffix(f, "fa") && rca.Chance(3, 4) {
-					f = f[:len(f)-2] + "fb" // keep most random histories inside the proved region
-				}
 			}
 			if i > 0 && rca.Chance(1, 2) {
 				evs = append(evs, "m:"+f)
